@@ -108,13 +108,27 @@ func (s *stream) enter(what string) {
 }
 func (s *stream) leave() { atomic.StoreInt32(&s.inCb, 0) }
 
+// staleSuffix: ":stale" when, in this case, some goroutine ran a stream callback on a connection
+// object that was removed from the pool (and therefore recycled) after the goroutine had looked it up.
+// It separates the known stale-pointer recycling defect from any other cause of the same symptom.
+func staleSuffix() string {
+	if ctl != nil && ctl.stale {
+		return ":stale"
+	}
+	return ""
+}
+
 func (s *stream) checkKey(w *worker, what string) {
 	if w == nil || w.inFlush {
 		return
 	}
+	if ctl != nil && w.lastCon != nil && ctl.removed[w.lastCon] != w.lookupEpoch && !ctl.stale {
+		ctl.stale = true
+		finding("pool:"+pkgTag()+":stale-delivery", fmt.Sprintf("%s on stream s%d through a pointer to a connection object that was closed, removed and recycled after goroutine %d looked it up", what, s.sid, w.id))
+	}
 	ok := w.curKey[0] == s.pair && (w.curKey[1] == s.dir || curPkg != "asm")
 	if !ok {
-		finding("pool:"+pkgTag()+":wrong-stream", fmt.Sprintf("%s: packet of key %d%s delivered to stream s%d created for key %d%s",
+		finding("pool:"+pkgTag()+":wrong-stream"+staleSuffix(), fmt.Sprintf("%s: packet of key %d%s delivered to stream s%d created for key %d%s",
 			what, w.curKey[0], dirName(w.curKey[1]), s.sid, s.pair, dirName(s.dir)))
 	}
 }
@@ -291,6 +305,10 @@ func (e *env) assembler(i int) assembler {
 }
 
 func runSchedule(sched []int) string {
+	if timeouts > tooManyBlocked {
+		lib.Stat("outcome:blocked-abort")
+		return "blocked-abort"
+	}
 	rec := &recorder{}
 	ev := cached
 	cached = nil
@@ -301,7 +319,7 @@ func runSchedule(sched []int) string {
 	ev.fac.rec = rec
 	mk := func(i int) assembler { return ev.assembler(i) }
 	closer := mk(0) // after the run (all goroutines ended): the closing FlushAll
-	c := &controller{reports: make(chan report), dead: map[interface{}]bool{}, rec: rec}
+	c := &controller{reports: make(chan report), dead: map[interface{}]bool{}, rec: rec, removed: map[interface{}]int{}}
 	for t := 0; t < nThreads; t++ {
 		w := &worker{id: t, resume: make(chan bool)}
 		c.ws = append(c.ws, w)
@@ -367,6 +385,11 @@ func runSchedule(sched []int) string {
 	c.killAll()
 	ctl = nil
 	// closing FlushAll (uncontrolled, single goroutine): map size, exactly-once completion
+	sfx := ""
+	if c.stale {
+		sfx = ":stale"
+		lib.Stat("branch:stale-delivery")
+	}
 	mapSize := -1
 	if clean {
 		done := make(chan [2]int, 1)
@@ -394,13 +417,14 @@ func runSchedule(sched []int) string {
 				}
 				for _, s := range rec.all {
 					if s.completes > 1 {
-						finding("pool:"+pkgTag()+":completed-twice", fmt.Sprintf("stream s%d (key %d%s) completed %d times", s.sid, s.pair, dirName(s.dir), s.completes))
+						finding("pool:"+pkgTag()+":completed-twice"+sfx, fmt.Sprintf("stream s%d (key %d%s) completed %d times", s.sid, s.pair, dirName(s.dir), s.completes))
 					} else if s.completes == 0 && s.callbacks > 0 {
-						finding("pool:"+pkgTag()+":not-completed", fmt.Sprintf("stream s%d (key %d%s) received callbacks but was never completed, even by FlushAll", s.sid, s.pair, dirName(s.dir)))
+						finding("pool:"+pkgTag()+":not-completed"+sfx, fmt.Sprintf("stream s%d (key %d%s) received callbacks but was never completed, even by FlushAll", s.sid, s.pair, dirName(s.dir)))
 					}
 				}
 			}
-		case <-time.After(watchdog):
+		case <-time.After(watchdog()):
+			timeouts++
 			finding("pool:"+pkgTag()+":blocked", "closing FlushAll blocks: a connection mutex was left locked")
 		}
 	}
